@@ -10,11 +10,12 @@ for name in $names; do
   props=""
   for f in $files; do
     case $f in
-      *sequence_otel.py) props="$props C08";;
-      *utils.py|*pv_to_tel.py) props="$props C16";;
+      *sequence_otel.py) props="$props C08 C12";;
+      *utils.py) props="$props C16 C06";;
+      *pv_to_tel.py) props="$props C16";;
       *events.py) props="$props C04";;
       *data_holders/base.py) props="$props C11";;
-      *pv_event_simulator.py) props="$props C14";;
+      *pv_event_simulator.py|*otel_to_pv/otel_to_pv.py|*pv_to_puml/pv_to_puml.py) props="$props C14";;
       *sql_dataholder.py) props="$props C09 C10 C12";;
     esac
   done
